@@ -189,6 +189,9 @@ def check_result(ctx, r, res):
                 return
     elif name == 'add_equal':
         ins, num = a['ins'], a['num']
+        if not ins:
+            ctx.count('skipped:add_equal width 0 (outside the stated domain, see ASSUMPTIONS)')
+            return
         for row in range(rows):
             x = G.value(tt, ins, row, True)
             if tt[ret][row] != (x == num):
